@@ -77,6 +77,16 @@ ENGINE_INCLUDES = {
 def run_engine(ctx, K):
     if ctx.pid == "C05":
         run_C05_edgeindex(ctx, K)
+    if ctx.pid == "C07":
+        # faults under ParallelStabilize: at parallelism 1 the run is deterministic and replayed on the
+        # model; at parallelism 4 (child process: a deadlock or a dying worker is an outcome) oracles only
+        b0 = K.go_build(ctx, "incrtrace")
+        if b0:
+            rep, cases = run_par_stream(ctx, K, b0, "faults", 1, tier_n(ctx, 40, 800), "parfaults_p1", False, claim="C07", include="C01,C03,C05")
+            if rep:
+                ctx.coq_cases += rep.get("coq_cases", 0)
+                K.run_cases(ctx, cases, "Engine.parStabilize~ParallelStabilize(parallelism 1), faults stream")
+            run_par_stream(ctx, K, b0, "faults", 4, tier_n(ctx, 100, 2000), "parfaults_p4", False, claim="C07", include="C01,C03,C05")
     b = K.go_build(ctx, "incrtrace")
     if not b:
         return
@@ -346,12 +356,12 @@ def race_sites(log):
     return out
 
 
-def run_par_stream(ctx, K, binary, profile, par, n, name, race, known_prefix=""):
+def run_par_stream(ctx, K, binary, profile, par, n, name, race, known_prefix="", claim="C04", include=ORACLES_ALL):
     """run incrtrace with -par in a child process; returns the report or None; parses race reports"""
     import json as _json
     report = os.path.join(ctx.workdir, name + ".json")
     cases = os.path.join(ctx.rundir, "cases_%s_%s.v" % (ctx.pid, name.replace("-", "_")))
-    args = [binary, "-prop", profile, "-par", str(par), "-claim", "C04", "-include", ORACLES_ALL, "-n", str(n), "-seed", str(ctx.seed),
+    args = [binary, "-prop", profile, "-par", str(par), "-claim", claim, "-include", include, "-n", str(n), "-seed", str(ctx.seed),
             "-coq", cases, "-coqmax", str(tier_n(ctx, 40, 300)), "-json", report]
     env = dict(K.GOENV, GORACE="halt_on_error=0 exitcode=66")
     rc, out = K.sh(args, 3000, cwd=ctx.workdir, env=env)
